@@ -1,5 +1,6 @@
 import CryoCat.Lemmas.C18
 import CryoCat.Lemmas.C18_Angle
+import CryoCat.Lemmas.C18_Euler
 import Mathlib.Algebra.Order.Ring.Defs
 /-! C18 — nearest-neighbour analysis equals brute force and is invariant under rigid motion.
 Only property theorems and non-vacuity examples; helper lemmas live in `Lemmas/C18.lean`.
@@ -337,6 +338,21 @@ theorem checkKnn_iff [LinearOrder α] (k n : Nat) (key : Nat → α) (out : List
     checkKnn k n key out = true ↔ KnnSpec k n key out :=
   ⟨checkKnn_sound' k n key out, checkKnn_complete' k n key out⟩
 
+/-- **The checker as the driver runs it**: on exact integers (`checkKnnInt`, core `Int` order — every complete position is
+decoded from its double to its exact dyadic value and all are scaled by one common power of two), so `checkKnn_iff` applies to
+the driver's verdict literally, with no floating-point comparison in between. -/
+theorem checkKnnInt_iff (k n : Nat) (key : Nat → Int) (out : List Nat) :
+    checkKnnInt k n key out = true ↔ KnnSpec k n key out := by
+  unfold checkKnnInt
+  exact checkKnn_iff k n key out
+
+/-- scaling all positions by a common factor `c ≠ 0` (the driver's `2^(-emin)`) multiplies every squared distance by `c²`:
+over an ordered field with `c ≠ 0` no comparison of keys changes -/
+theorem keys_scale [CommRing α] (c : α) (q n : Pt α) (q' n' : Pt α)
+    (hq : pos q' = V3.smul c (pos q)) (hn : pos n' = V3.smul c (pos n)) : d2 q' n' = c * c * d2 q n := by
+  unfold d2
+  rw [hq, hn, smul_sub_smul, normSq_smul]
+
 /-- the sort key of a candidate is the squared Euclidean distance of the COMPLETE positions
 (`x+shift_x, …`) of candidate and query -/
 theorem key_is_squared_distance [CommRing α] (q : Pt α) (cn : List (Pt α)) (j : Nat) (n : Pt α)
@@ -483,12 +499,35 @@ theorem pair_rigid [CommRing α] {Q : M3 α} {t : V3 α} {q q' n n' : Pt α} (px
 particle keeps its identifiers, its complete position becomes `Q·pos + t`, its orientation `Q·R`, described
 by whatever Euler angles). Then the table is the same table — same rows in the same order, same neighbours,
 distances, particle-frame offsets, angular distances, relative orientations, subtomogram numbers — except
-that each tomogram-frame offset is rotated by `Q`. No hypothesis on ties, sizes, `k` or the pixel size. -/
+that each tomogram-frame offset is rotated by `Q`. No hypothesis on ties, sizes, `k` or the pixel size. The hypothesis
+`Forall₂ (Moved Q t)` is satisfiable for every pair of lists and every PROPER rotation, and for no reflection
+(`moved_exists_iff_proper`); `nnStats_rigid_real` states the invariance with the moved lists constructed. -/
 theorem nnStats_rigid [CommRing α] [LinearOrder α] (S : Num α) (px : α) (k : Nat) {Q : M3 α} {t : V3 α}
     {a a' nn nn' : List (Pt α)} (hQ : Q.Orth)
     (ha : List.Forall₂ (Moved Q t) a a') (hn : List.Forall₂ (Moved Q t) nn nn') :
     nnStats S px k a' nn' = (nnStats S px k a nn).map (Row.turn Q) :=
   nnStats_moved S px k hQ ha hn
+
+/-- **The hypothesis of `nnStats_rigid` can be met for every input, and only by proper rotations.** Over ℝ: for every
+list of well-formed particles (Euler angles on the unit circle), every proper rotation `Q` (`Q.Orth ∧ det Q = 1`) and every
+translation `t` a moved copy `l'` with `Forall₂ (Moved Q t) l l'` EXISTS (zxz Euler angles of `Q·R_p` exist for every
+particle, `exists_moved`); and whenever `Moved Q t p p'` holds — over any commutative ring — `det Q = 1`: `Q.Orth` in
+`nnStats_rigid` admits reflections only formally, no particle has an image under one. -/
+theorem moved_exists_iff_proper (Q : M3 ℝ) (t : V3 ℝ) (hQ : Q.Orth) (p : Pt ℝ) (hp : p.WF) :
+    (∃ p', Moved Q t p p') ↔ Q.det = 1 :=
+  ⟨fun ⟨_, h⟩ => h.det_eq_one, fun hd => exists_moved Q t p hp ⟨hQ, hd⟩⟩
+
+/-- **Rigid-motion invariance with the moved lists constructed** (ℝ): for all lists of well-formed particles, every
+proper rotation `Q`, every translation `t`, every `k`, pixel size and services there ARE moved copies `a'`, `nn'` of the
+two lists, and the table of the moved copies is the table of the originals with the tomogram-frame offsets rotated by
+`Q` — `nnStats_rigid` with its hypothesis discharged instead of assumed. -/
+theorem nnStats_rigid_real (S : Num ℝ) (px : ℝ) (k : Nat) (Q : M3 ℝ) (t : V3 ℝ) (hQ : IsRot Q)
+    (a nn : List (Pt ℝ)) (ha : ∀ p ∈ a, p.WF) (hn : ∀ p ∈ nn, p.WF) :
+    ∃ a' nn', List.Forall₂ (Moved Q t) a a' ∧ List.Forall₂ (Moved Q t) nn nn' ∧
+      nnStats S px k a' nn' = (nnStats S px k a nn).map (Row.turn Q) := by
+  obtain ⟨a', ha'⟩ := exists_moved_list Q t hQ a ha
+  obtain ⟨nn', hn'⟩ := exists_moved_list Q t hQ nn hn
+  exact ⟨a', nn', ha', hn', nnStats_moved S px k hQ.1 ha' hn'⟩
 
 /-- Reading aid for `nnStats_rigid` (thirteen `rfl`: `Row.turn` is a record update of the field `offset`): what
 `Row.turn` leaves alone is everything but the tomogram-frame offset. Not a clause of the statement by itself — the clause is
@@ -679,6 +718,11 @@ example : CorrectSearch (α := Int) (neighbours 2) 2
 example : (5 : Int) * 5 = d2 (α := Int)
     { tomo := 1, sub := 1, base := ⟨0, 0, 0⟩, shift := ⟨1, 0, 0⟩, phi := ⟨1, 0⟩, theta := ⟨1, 0⟩, psi := ⟨1, 0⟩ }
     { tomo := 1, sub := 2, base := ⟨3, 4, 0⟩, shift := ⟨1, 0, 0⟩, phi := ⟨1, 0⟩, theta := ⟨1, 0⟩, psi := ⟨1, 0⟩ } := by decide
+
+/-- a proper rotation over ℝ that is no axis permutation (hypothesis of `nnStats_rigid_real`): the turn about z with
+cos = 3/5, sin = 4/5 -/
+example : IsRot (rz (3 / 5 : ℝ) (4 / 5)) :=
+  ⟨rz_orth _ _ (by norm_num), by rw [det_rz]; norm_num⟩
 
 /-- distinct keys exist -/
 example : NoTies 4 (fun i => (3 * i : Int)) := by
